@@ -71,6 +71,9 @@ def cases(tier, seed):
     for i in range(nz):
         c = _gen(rng, "thorough", i)
         c.update({"id": "interp-%d" % i, "kind": "interp", "window": [30.0, 20.0, 10.0][i % 3], "degree": [32, 40, 48][(i // 3) % 3], "npts_det": [3, 40, 200][i % 3], "annulus": bool((i // 3) % 2)})
+        if i % 10 == 7:
+            # window sizes that are not binary fractions, the smallest radius exactly on a window boundary
+            c.update({"window": [0.1, 0.3, 0.7, 1.1, 7.3, 12.7][(i // 10) % 6], "onbreak": [34, 5, 11, 3][(i // 10) % 4], "annulus": False})
         out.append(c)
     # small problems: every listed quadrature order is far beyond the integrand's bandwidth (|kz| <= 25, k*rho <= 15), so each
     # Lens(theta-order, phi-order) -- deliberately unequal and in both orders -- must already equal the analytic theory
@@ -217,6 +220,10 @@ def _run_interp(case):
         phi = rng.uniform(0, 0.5, max(n, 2)) + rng.uniform(0, 6)
     if not case.get("annulus"):
         phi = rng.uniform(0, 2 * math.pi, n)
+    if case.get("onbreak"):
+        ws_ = case["window"]
+        krho = np.array([ws_ * case["onbreak"], ws_ * (case["onbreak"] + 0.5), ws_ * (case["onbreak"] + 3)])
+        phi = phi[:3] if len(phi) >= 3 else np.array([0.3, 1.1, 4.0])
     det, s, nmed, wl, pol = _setup(case, krho, phi)
     la = case["la"]
     base = _field(det, s, nmed, wl, pol, MieLens(la, calculator_accuracy_kwargs={"interpolate_integrals": False}))
